@@ -754,8 +754,10 @@ Theorem parse_slices_inside : forall payloads class t imgs,
   load payloads = (class, t, imgs) -> class = 0 \/ class = 1 -> pool_ok imgs t.
 Proof.
   intros payloads class t imgs Hall E Hc. unfold load in E.
-  destruct (CreateDefaultScopes (@NewObjectTree value) 0) as [t0| |] eqn:Ed.
-  - eapply load_tables_ok; eauto. eapply CreateDefaultScopes_ok; eauto.
+  pose proof (CreateDefaultScopes_ok [] 0) as Hd.
+  revert Hd E. generalize (CreateDefaultScopes (@NewObjectTree value) 0). intros o Hd E.
+  destruct o as [t0| |].
+  - eapply load_tables_ok; eauto.
   - inversion E; subst. destruct Hc; discriminate.
   - inversion E; subst. destruct Hc; discriminate.
 Qed.
